@@ -111,4 +111,20 @@ open DL.Gen in
 theorem no_rule_reads_collected_diagnostics : ∀ row ∈ ctxMethodCalls, row.2.contains "diagnostics" = false := by
   decide +kernel
 
+/-- what a rule may ask of the `Context`: per-file data that is fixed before the first rule runs (program, text, comments,
+scope and control-flow analyses, media type, specifier, the parsed directives — whose `used` marks are written only by
+`check_ignore_directive_usage`, after the last rule — the JSX factories, the unresolved syntax context), the three
+append-only `add_diagnostic*` methods, and `stop_traverse` (a one-shot flag the traversal engine clears: C08
+`rules_sequence_ok`) -/
+def reviewedContextApi : List String :=
+  ["add_diagnostic", "add_diagnostic_with_fixes", "add_diagnostic_with_hint", "all_comments", "control_flow",
+   "file_ignore_directive", "jsx_factory", "jsx_fragment_factory", "leading_comments_at", "line_ignore_directives",
+   "media_type", "program", "scope", "specifier", "stop_traverse", "text_info", "trailing_comments_at", "unresolved_ctxt"]
+
+/-- re-decided on every run: no rule file calls a `Context` method outside the reviewed set — in particular none that
+writes anything a later rule could read (the append-only contract of `project_run`) -/
+theorem rules_use_only_reviewed_context_api :
+    DL.Gen.ctxMethodCalls.all (fun row => row.2.all (fun m => reviewedContextApi.contains m)) = true := by
+  decide +kernel
+
 end DL.Props.C04
